@@ -52,6 +52,18 @@ class Ctx:
         return None
 
 
+def _reuse(self, new_rule: str, fn, *args, **kw):
+    """Run a rule function that belongs to another property and file its verdicts under `new_rule`."""
+    before = len(self.rep.results)
+    out = self.guard(new_rule, fn, *args, **kw)
+    for r in self.rep.results[before:]:
+        r.rule = f"{new_rule}[{r.rule}]"
+    return out
+
+
+Ctx.reuse = _reuse
+
+
 def run_property(prop: str, tier: str, root: str) -> int:
     ctx = Ctx(prop, tier, root)
     mod = importlib.import_module(f"sa.rules.{prop.lower()}")
